@@ -16,8 +16,8 @@ import (
 )
 
 type vector struct {
-	Key map[string]string `json:"key"`
-	Alg string            `json:"alg"`
+	Key  map[string]string `json:"key"`
+	Alg  string            `json:"alg"`
 	Sign *struct {
 		Payload   string `json:"payload"`
 		Protected struct {
@@ -146,36 +146,36 @@ func TestCountersignContexts(t *testing.T) {
 
 func TestWellFormedRejects(t *testing.T) {
 	bad := map[string]string{
-		"trailing":            "d28440a0f64100" + "00",
-		"tag inside":          "d28440a0c0f64100",
-		"empty sig":           "d28440a0f640",
-		"payload int":         "d28440a0014100",
-		"prot not bstr":       "d284a0a0f64100",
-		"prot wraps array":    "d2844180a0f64100",
-		"prot trailing":       "d28442a000a0f64100",
-		"unprot not map":      "d2844080f64100",
-		"dup label":           "d28440a2010001 00f64100",
-		"dup label widths":    "d28440a20100180100f64100",
-		"bstr label":          "d28440a1410000f64100",
-		"big label":           "d28440a11bffffffffffffffff00f64100",
-		"alg bstr":            "d28443a10140a0f64100",
-		"crit unprotected":    "d28440a1028101f64100",
-		"crit empty":          "d28443a10280a0f64100",
-		"crit missing label":  "d28444a1028104a0f64100",
-		"kid not bstr":        "d28440a10400f64100",
-		"iv and piv":          "d28440a2054100064100f64100",
-		"iv piv across":       "d28444a1054100a1064100f64100",
-		"csig protected":      "d28447a107834 0a04100a0f64100",
-		"csig null":           "d28440a107f6f64100",
-		"csig empty list":     "d28440a10780f64100",
-		"csig list of null":   "d28440a10781f6f64100",
-		"csig0 not bstr":      "d28440a10900f64100",
-		"indefinite array":    "d29f40a0f64100ff",
-		"indefinite inside":   "d28440a1189f9ffff64100",
-		"wrong tag":           "d38440a0f64100",
-		"untagged as tagged":  "8440a0f64100",
-		"ct negative":         "d28440a10320f64100",
-		"ct text no slash":    "d28440a103616af64100",
+		"trailing":           "d28440a0f64100" + "00",
+		"tag inside":         "d28440a0c0f64100",
+		"empty sig":          "d28440a0f640",
+		"payload int":        "d28440a0014100",
+		"prot not bstr":      "d284a0a0f64100",
+		"prot wraps array":   "d2844180a0f64100",
+		"prot trailing":      "d28442a000a0f64100",
+		"unprot not map":     "d2844080f64100",
+		"dup label":          "d28440a2010001 00f64100",
+		"dup label widths":   "d28440a20100180100f64100",
+		"bstr label":         "d28440a1410000f64100",
+		"big label":          "d28440a11bffffffffffffffff00f64100",
+		"alg bstr":           "d28443a10140a0f64100",
+		"crit unprotected":   "d28440a1028101f64100",
+		"crit empty":         "d28443a10280a0f64100",
+		"crit missing label": "d28444a1028104a0f64100",
+		"kid not bstr":       "d28440a10400f64100",
+		"iv and piv":         "d28440a2054100064100f64100",
+		"iv piv across":      "d28444a1054100a1064100f64100",
+		"csig protected":     "d28447a107834 0a04100a0f64100",
+		"csig null":          "d28440a107f6f64100",
+		"csig empty list":    "d28440a10780f64100",
+		"csig list of null":  "d28440a10781f6f64100",
+		"csig0 not bstr":     "d28440a10900f64100",
+		"indefinite array":   "d29f40a0f64100ff",
+		"indefinite inside":  "d28440a1189f9ffff64100",
+		"wrong tag":          "d38440a0f64100",
+		"untagged as tagged": "8440a0f64100",
+		"ct negative":        "d28440a10320f64100",
+		"ct text no slash":   "d28440a103616af64100",
 	}
 	for name, h := range bad {
 		b, err := hex.DecodeString(stripSpaces(h))
